@@ -81,7 +81,7 @@ def main():
         "engines": [{"name": "vf", "path": "vf/", "serves_properties": sorted(CHECKS), "kind_free_text": "property-based testing (Hypothesis 6.168), exhaustive enumeration of bounded domains, model-based histories, Atheris fuzzing for C07 thorough"}],
         "checks": checks,
         "not_applicable": na,
-        "notes": "All checks: ./check <ID> [--tier quick|thorough] [--replay FILE]; VERIF_SEED honoured; exit 2 = harness error. Known findings / fixed defects: known_findings.json (all fixed by fix: commits in /repo except D86 (C08), which is open: C08 prints one KNOWN-FINDING line and exits 0).",
+        "notes": "All checks: ./check <ID> [--tier quick|thorough] [--replay FILE]; VERIF_SEED honoured; exit 2 = harness error. Known findings / fixed defects: known_findings.json (D1-D87, all fixed by fix: commits in /repo; no open finding, so no check prints a KNOWN-FINDING line).",
     }
     with open(os.path.join(HERE, "MANIFEST.json"), "w") as f:
         json.dump(m, f, indent=1)
